@@ -76,3 +76,36 @@ Theorem c06_sprint_events_sum_partial : forall E k acts c c' evs,
   group_events_sum evs (c_groups c) = c_groups c'.
 Proof. exact sprint_group_events. Qed.
 Print Assumptions c06_sprint_events_sum_partial.
+
+(* "a contact that becomes non-active also leaves all its static groups", whenever the engine hands back a session:
+   the invariant "a non-active contact is in no static group" is kept by every sprint (the starting contact and a
+   refreshed contact are the caller's: premises) *)
+Theorem c06_no_static_groups_sprint_partial : forall E k acts c c' evs,
+  wf_contact E c -> kind_wf E k -> kind_static_ok E k -> Forall (fun fm => mod_wf E (snd fm)) acts ->
+  NoStaticIfInactive E c ->
+  run_sprint E k acts c = (c', evs) -> NoStaticIfInactive E c'.
+Proof. exact sprint_no_static. Qed.
+Print Assumptions c06_no_static_groups_sprint_partial.
+
+(* As the code stands the engine evaluates queries in TWO environments: the session's at start/resume, the
+   contact-merged one (contact's time zone) inside modifiers.Apply (model: run_sprint2 Es Em).  If both agree on the
+   groups and on what every query says of every contact — in particular on the day of every instant a date condition
+   compares — the sprint clause holds for both ... *)
+Theorem c06_after_sprint_two_env_partial : forall Es Em k acts c c' evs,
+  groups_env_agree Es Em ->
+  wf_contact Em c -> kind_wf Em k -> Forall (fun fm => mod_wf Em (snd fm)) acts ->
+  run_sprint2 Es Em k acts c = (c', evs) ->
+  same_contact (replay evs c) c' /\ Consistent Em c' /\ Consistent Es c'.
+Proof. exact after_sprint_two_env. Qed.
+Print Assumptions c06_after_sprint_two_env_partial.
+
+(* ... and if they can disagree it is false (finding F6d, listed in KNOWN_FINDINGS.txt): the same resume without and
+   with an action that does not touch what the query reads leaves the contact in, resp. out of, the group —
+   membership after a sprint depends on which re-evaluation ran last *)
+Theorem c06_after_sprint_two_env_refuted :
+  exists Es Em k c c1 e1 c2 e2,
+    Em = with_matches Es (matches Em) /\ wf_contact Em c
+    /\ run_sprint2 Es Em k [] c = (c1, e1) /\ run_sprint2 Es Em k [(7, MLanguage 2)] c = (c2, e2)
+    /\ Consistent Es c1 /\ ~ Consistent Em c1 /\ Consistent Em c2 /\ ~ Consistent Es c2.
+Proof. exact after_sprint_two_env_refuted. Qed.
+Print Assumptions c06_after_sprint_two_env_refuted.
